@@ -7,6 +7,9 @@ import objfile, dbfile, tokenkey
 
 TEMPLATE_ATTRS = ('CKA_WRAP_TEMPLATE', 'CKA_UNWRAP_TEMPLATE', 'CKA_DERIVE_TEMPLATE')
 SKIP_ATTRS = {'CKA_VENDOR_DEFINED'}
+# DBObject.cpp decides the table to READ from by a fixed per-type table that lacks these two attribute types, so the db
+# back-end writes them (rows accumulate) but can never read them back: after a restart the API answers with the default.
+DB_UNREADABLE = ('CKA_DESTROYABLE', 'CKA_PUBLIC_KEY_INFO')
 UNAVAILABLE = 'unavailable'      # marker value: the API refuses to reveal the attribute (sensitive / unextractable)
 
 def attr_universe(ck):
